@@ -136,7 +136,7 @@ Definition c16_tight_check (c : gcert) (d : T) : bool :=
 (* ------------------------------------------------------------------ *)
 Record dtols := mkDT {
   d_eps : T;     (* Bellman residual of state_value (the improvement test's tolerance) *)
-  d_eta : T;     (* support: look-ahead of state_value within etab of the backup *)
+  d_eta : T;     (* support: look-ahead of state_value within d_eta of the backup *)
   d_gz : T;      (* |state_gain| (the gain is 0 in a discounted problem) *)
   d_ptol : T;
   d_itol : T
